@@ -554,7 +554,7 @@ TRACKER_ATTR = ["fn:rsadsb_common/lib.rs::Airplanes::add_identification", "fn:rs
 class TrackerProp(Prop):
     stateful = True
     # the functions of the tracker crate the model was written against (text tie, besides the differential correspondence)
-    deps = ["shape:get_position", "shape:AirborneVelocity::calculate"] + TRACKER_BASE
+    deps = ["shape:AirborneVelocity::calculate"] + TRACKER_BASE
     technique = "Lean 4 theorems (induction over histories, invariants) over a model of the tracker generic in geometry and clock + differential correspondence on generated histories + reference oracle"
     histories = (60, 150)
     def ops(self, rng, tier):
@@ -602,7 +602,7 @@ class C12(TrackerProp):
 
 class C13(TrackerProp):
     id = "C13"; module = "Adsb.Theorems.C13"; design_ref = "5/C13"
-    modules = ["Adsb.Theorems.C13", "Adsb.Theorems.C13b"]
+    modules = ["Adsb.Theorems.C13", "Adsb.Theorems.C13b", "Adsb.Theorems.C05d"]
     deps = TrackerProp.deps + TRACKER_POS
     rule = C12.rule + "; receivers at 6 sites incl. high latitude and the antimeridian, ranges 150-1000 km"
     claim = "publish iff both reports stored, pairing in range and within the jump limit; otherwise the record is cleared; invariant: published position = pairing of stored reports, distance = receiver distance, for every reachable state; the haversine formula of the tracker (model generic in the number type) equals radius x central angle of the two unit vectors over the reals (Theorems/C13b: haversine_is_great_circle, symmetry, range [0, 6371*pi], 0 to itself, antipodes; plausible_iff_great_circle: the tracker's test passes exactly when the candidate is within the range of the receiver and within 100 km of the published position along the great circle)"
@@ -746,8 +746,10 @@ def cpr_tie_ops(rng, n):
 
 class C05(Prop):
     id = "C05"; module = "Adsb.Theorems.C05"; design_ref = "5/C05"
-    modules = ["Adsb.Theorems.C05", "Adsb.Theorems.C05b", "Adsb.Theorems.C05c"]
-    deps = ["shape:get_position", "shape:positive_mod", "shape:get_lat_lon"]
+    modules = ["Adsb.Theorems.C05", "Adsb.Theorems.C05b", "Adsb.Theorems.C05c", "Adsb.Theorems.C05d"]
+    # get_position / get_lat_lon / positive_mod are no longer tied as text: they are translated (Gen/CprFn.lean) and Theorems/C05d re-proves, on
+    # every run, that the translated functions are the model; a rewrite that keeps the arithmetic keeps the proof
+    deps = []
     abs_tol = 1e-6
     rule = ("true positions on a lattice over the sphere, at the poles, the equator, the antimeridian, on both sides of each of the 58 NL transition "
             "latitudes and of latitude-zone boundaries, encoded exactly (Fractions) for an even and an odd report displaced by 0 / up to 2.9 NM, both orders: "
@@ -759,6 +761,8 @@ class C05(Prop):
              "longitude in [-180,180); different NL bands give none (zone_mismatch_none); re-encoding gives the transmitted values (reencode_lat/lon); every returned position is in range "
              "(position_range); cpr_nl tree = published NL table (cprNl_eq_table, nl_tree_is_table re-checked against the source); equal parity gives none; "
              "the longitude hypothesis follows from 'at most 3 NM east-west at the decoded latitude' for every entry of the code's own NL table (Theorems/C05c: lonClose_of_3NM, cpr_correct_within_3NM; cosine bounded below by 1-x^2/2 and y-y^3/6 with 3.1415 < pi < 3.1416); "
+             "get_position / get_lat_lon / positive_mod are translated from cpr.rs on every run (Gen/CprFn.lean, generic in the number type, every u64 subtraction a check) and proved equal, in exact arithmetic "
+             "with % as the truncated remainder, to the model for every pair of reports (Theorems/C05d: src_positive_mod, src_get_lat_lon, src_get_position, src_cpr_position_error); "
              "the exact Rat instance and the Float instance are one definition, tied numerically to the f64 code")
     note = "IEEE rounding of the f64 evaluation is not modelled; positions within 1e-9 deg of an NL transition / +-90 are treated as borderline in the comparison"
     def equal(self, a, m): return a == m or numeq(a, m, 1e-6)
